@@ -248,6 +248,9 @@ type memLoader struct {
 	mu    sync.Mutex
 	log   []string // "get <name> hit|miss"
 	gets  map[string]int
+	idx   int
+	seq   *[]string // the set-wide access log, in order: "<loader index>:<name hex>:<1|0>"
+	seqMu *sync.Mutex
 }
 
 func newMemLoader(files map[string]string) *memLoader {
@@ -264,6 +267,15 @@ func (l *memLoader) Get(path string) (io.Reader, error) {
 	defer l.mu.Unlock()
 	l.gets[path]++
 	c, ok := l.files[path]
+	if l.seq != nil {
+		l.seqMu.Lock()
+		h := "0"
+		if ok {
+			h = "1"
+		}
+		*l.seq = append(*l.seq, fmt.Sprintf("%d:%s:%s", l.idx, hxe(path), h))
+		l.seqMu.Unlock()
+	}
 	if !ok {
 		l.log = append(l.log, "get "+path+" miss")
 		return nil, errors.New("not found: " + path)
@@ -382,18 +394,22 @@ func worldFromArgs(args []string) (*world, string, gctx) {
 type built struct {
 	set     *pongo2.TemplateSet
 	loaders []*memLoader
+	seq     []string
+	seqMu   sync.Mutex
 }
 
 func (w *world) build() *built {
 	b := &built{}
 	var ls []pongo2.TemplateLoader
-	for _, m := range w.files {
+	for i, m := range w.files {
 		l := newMemLoader(m)
+		l.idx, l.seq, l.seqMu = i, &b.seq, &b.seqMu
 		b.loaders = append(b.loaders, l)
 		ls = append(ls, l)
 	}
 	if len(ls) == 0 {
 		l := newMemLoader(map[string]string{})
+		l.seq, l.seqMu = &b.seq, &b.seqMu
 		b.loaders = append(b.loaders, l)
 		ls = append(ls, l)
 	}
